@@ -69,6 +69,8 @@ def run(ctx):
         ctx.tie_broken("harness output", "%d of %d runs reported" % (len(runs), len(cases)))
     # T2: the static sc_notify_merge of the working tree against the extracted int-level model, records with payload
     nc.merge_tie(ctx, [1, 1, 2, 3, 4, 10], 1500 if ctx.quick else 20000)
+    # T3: every rank's trace of single calls with fixed-size items co-simulated against the extracted per-rank programs
+    nc.cosim_tie(ctx, [1], 90 if ctx.quick else 1200)
     ctx.cov["rule"] = ("sc_notify_payload / sc_notify_payloadv (+ sc_notify_ext, sc_notify_nary) on the simulated MPI: all 9 algorithm types, item sizes 1..17,24,31,40 (most not "
                        "multiples of sizeof(int)), eager threshold set below/at/above the item size, variable slices of 0..7 items, sorted 0/1, in-place and separate "
                        "outputs, 8 scheduler adversaries, some back-to-back calls; non-trivial = P > 1 and at least one receiver")
